@@ -37,6 +37,7 @@ def run_k(ctx, kres):
     from .. import gen2
     mt, ncell = gen2.c13_unwrap_matrix(ctx.seed, sample=180 if ctx.quick else None)
     v += k_suite(ctx, kres, "K08-unwrap-matrix", [Trace("unwrap-matrix", mt)], in_projection)
+    v += k_suite(ctx, kres, "K08-derive-matrix", [Trace("derive-matrix", gen2.c02_derive_matrix(ctx.seed))], in_projection)
     return v
 
 
